@@ -69,6 +69,9 @@ func tcpPair() (cli *net.TCPConn, srv *net.TCPConn, err error) {
 	return cli, srv, nil
 }
 
+// errNoLoopback: the sandbox does not allow loopback TCP; the tier is skipped and the fact recorded in stats.json
+var errNoLoopback = errors.New("loopback TCP unavailable")
+
 type wvScenario struct {
 	coalesce time.Duration
 	timeout  time.Duration // write timeout of the writer
@@ -109,6 +112,9 @@ func runWritev(r *vh.Rng) (string, string) {
 	}
 	op, err := execWritev(r, sc)
 	if err != nil {
+		if errors.Is(err, errNoLoopback) {
+			return "", err.Error()
+		}
 		return "fatal writev tier: " + err.Error(), "fatal"
 	}
 	return op, cls
@@ -117,7 +123,7 @@ func runWritev(r *vh.Rng) (string, string) {
 func execWritev(r *vh.Rng, sc wvScenario) (string, error) {
 	cli, srv, err := tcpPair()
 	if err != nil {
-		return "", err
+		return "", fmt.Errorf("%w: %v", errNoLoopback, err)
 	}
 	defer srv.Close()
 	n := len(sc.lens)
@@ -183,17 +189,30 @@ func execWritev(r *vh.Rng, sc wvScenario) (string, error) {
 	}
 	done := make(chan struct{})
 	go func() { wg.Wait(); close(done) }()
+	// a peer that stopped reading starts again when every writer has returned or after 600 ms, whichever is first
+	// (part of the scenario's shape, like the peer's read sizes: a writer that is still blocked then - one that
+	// waits its turn behind others that each ran into their deadline, or one whose Write had no deadline - simply
+	// gets its bytes through; the history is judged whatever it is)
+	resumed := false
 	select {
 	case <-done:
-	case <-time.After(60 * time.Second):
-		buf := make([]byte, 1<<20)
-		m := runtime.Stack(buf, true)
-		os.WriteFile("/tmp/c07_writev_hang.txt", buf[:m], 0o644)
-		return "", errors.New("a writer did not return within 60 s (dump /tmp/c07_writev_hang.txt)")
+	case <-time.After(600 * time.Millisecond):
+		close(resume)
+		resumed = true
+		select {
+		case <-done:
+		case <-time.After(60 * time.Second):
+			buf := make([]byte, 1<<20)
+			m := runtime.Stack(buf, true)
+			os.WriteFile("/tmp/c07_writev_hang.txt", buf[:m], 0o644)
+			return "", errors.New("a writer did not return within 60 s although the peer reads (dump /tmp/c07_writev_hang.txt)")
+		}
 	}
 	w.Quit()
 	cli.Close() // FIN behind the last accepted byte: the peer reads everything the kernel took, then EOF
-	close(resume)
+	if !resumed {
+		close(resume)
+	}
 	select {
 	case <-eof:
 	case <-time.After(60 * time.Second):
